@@ -494,12 +494,11 @@ class DefTag(Tag):
                     c, **self.exception_kwargs
                 ).undeclared_identifiers
             )
-        return (
-            set(res)
-            .union(
-                self.filter_args.undeclared_identifiers.difference(
-                    filters.DEFAULT_ESCAPES.keys()
-                )
+        # the defaults are evaluated where the def is defined: a parameter
+        # of the same name (the "x=x" idiom) does not hide what they read
+        return set(res).union(
+            self.filter_args.undeclared_identifiers.difference(
+                filters.DEFAULT_ESCAPES.keys()
             )
             .union(self.expression_undeclared_identifiers)
             .difference(self.function_decl.allargnames)
